@@ -7,6 +7,7 @@ import (
 	"io"
 	"math"
 	"reflect"
+	"strings"
 
 	"github.com/lugu/qiloop/internal/zzverif/sym"
 	"github.com/lugu/qiloop/meta/signature"
@@ -559,4 +560,128 @@ func C03LongLists() {
 	}
 	sym.Assert(back.T == v.T, "long-list/field-after-the-list")
 	sym.Reach("long-lists-done")
+}
+
+// zzWide66: a struct with more members than a machine word has bits.
+type zzWide66 struct {
+	F0 uint8
+	F1 uint8
+	F2 uint8
+	F3 uint8
+	F4 uint8
+	F5 uint8
+	F6 uint8
+	F7 uint8
+	F8 uint8
+	F9 uint8
+	F10 uint8
+	F11 uint8
+	F12 uint8
+	F13 uint8
+	F14 uint8
+	F15 uint8
+	F16 uint8
+	F17 uint8
+	F18 uint8
+	F19 uint8
+	F20 uint8
+	F21 uint8
+	F22 uint8
+	F23 uint8
+	F24 uint8
+	F25 uint8
+	F26 uint8
+	F27 uint8
+	F28 uint8
+	F29 uint8
+	F30 uint8
+	F31 uint8
+	F32 uint8
+	F33 uint8
+	F34 uint8
+	F35 uint8
+	F36 uint8
+	F37 uint8
+	F38 uint8
+	F39 uint8
+	F40 uint8
+	F41 uint8
+	F42 uint8
+	F43 uint8
+	F44 uint8
+	F45 uint8
+	F46 uint8
+	F47 uint8
+	F48 uint8
+	F49 uint8
+	F50 uint8
+	F51 uint8
+	F52 uint8
+	F53 uint8
+	F54 uint8
+	F55 uint8
+	F56 uint8
+	F57 uint8
+	F58 uint8
+	F59 uint8
+	F60 uint8
+	F61 uint8
+	F62 uint8
+	F63 uint8
+	F64 uint8
+	F65 uint8
+}
+
+// C03WideTypes: types that are wide rather than deep. (a) a struct of 66 one-byte members: the encoder
+// writes all 66, the signature reader returns them unchanged, the decoder recovers the last ones too;
+// (b) a dynamic value whose signature is long (a tuple of 600 integers: 602 bytes of signature): the
+// signature-driven reader of "m" and of "(sm)" accepts what the encoder wrote and returns it unchanged.
+func C03WideTypes() {
+	if sym.Bool("long-signature") {
+		const n = 600
+		sig := "(" + strings.Repeat("i", n) + ")"
+		data := make([]byte, 4*n)
+		data[0], data[4*n-1] = sym.U8("first"), sym.U8("last")
+		v := value.Opaque(sig, data)
+		var buf bytes.Buffer
+		sym.Assert(NewEncoder(nil, &buf).Encode(struct {
+			S string
+			V value.Value
+		}{"k", v}) == nil, "long-signature/encode-ok")
+		enc := append([]byte{}, buf.Bytes()...)
+		spec := zzCat(zzStr("k"), zzStr(sig), data)
+		sym.Assert(sym.EqBytes(enc, spec), "long-signature/documented-layout")
+		reader, err := signature.MakeReader("(sm)")
+		sym.Assert(err == nil, "long-signature/reader-built")
+		if err == nil {
+			r := bytes.NewReader(append(append([]byte{}, spec...), 0x77))
+			got, err := reader.Read(r)
+			sym.Assert(err == nil, "long-signature/reader-accepts")
+			if err == nil {
+				sym.Assert(r.Len() == 1, "long-signature/reader-consumes-exactly")
+				sym.Assert(sym.EqBytes(got, spec), "long-signature/reader-returns-unchanged")
+			}
+		}
+		var back struct {
+			S string
+			V value.Value
+		}
+		sym.Assert(NewDecoder(nil, bytes.NewReader(spec)).Decode(&back) == nil, "long-signature/decode-ok")
+		if back.V != nil {
+			var again bytes.Buffer
+			sym.Assert(back.V.Write(&again) == nil, "long-signature/reencode-ok")
+			sym.Assert(sym.EqBytes(again.Bytes(), spec[5:]), "long-signature/decode-recovers")
+		}
+		sym.Reach("wide-done")
+		return
+	}
+	var v zzWide66
+	v.F0, v.F63, v.F64, v.F65 = sym.U8("f0"), sym.U8("f63"), sym.U8("f64"), sym.U8("f65")
+	spec := make([]byte, 66)
+	spec[0], spec[63], spec[64], spec[65] = v.F0, v.F63, v.F64, v.F65
+	var back zzWide66
+	zzCheck("wide-struct", "("+strings.Repeat("C", 66)+")", v, spec, &back, func() bool {
+		return sym.And(sym.And(back.F0 == v.F0, back.F63 == v.F63), sym.And(back.F64 == v.F64, back.F65 == v.F65))
+	})
+	sym.Reach("wide-done")
 }
